@@ -233,6 +233,12 @@ def binop(rt, interp, op, a, b, node=None):
             pa, pb = possible_bits(z3.simplify(x)), possible_bits(z3.simplify(y))
             if pa is not None and pb is not None and pa & pb == 0:
                 return lift_int(x + y)          # disjoint bit ranges: | and ^ are +
+            for m, o in ((a, y), (b, x)):
+                if isinstance(m, int) and not isinstance(m, bool) and m > 0 and m & (m - 1) == 0:
+                    # single-bit mask 2^k (exact for every integer, floor division = two's complement):
+                    #   o | m == o + m * (1 - bit_k(o)),    o ^ m == o + m - 2 * m * bit_k(o),    bit_k(o) = (o // m) % 2
+                    bit = (o / m) % 2
+                    return lift_int(o + m * (1 - bit) if opn == "BitOr" else o + m - 2 * m * bit)
             w = _bv_width(interp, a, b)
             if w is not None:
                 xa, xb = z3.Int2BV(x, w), z3.Int2BV(y, w)
